@@ -62,8 +62,20 @@ var c20goTypes = map[string]reflect.Type{
 // namedString is a user-defined string type (an ID field may be declared with one).
 type namedString string
 
+// user-defined types whose underlying type is a supported one: as attribute / relationship field types they are NOT
+// among the supported types (nothing downstream can store into or read from them)
+type namedIDs []string
+type namedBytes []byte
+type namedInt int
+type namedBool bool
+
 func init() {
 	c20goTypes["named-string"] = reflect.TypeOf(namedString(""))
+	c20goTypes["*named-string"] = reflect.TypeOf((*namedString)(nil))
+	c20goTypes["named-ids"] = reflect.TypeOf(namedIDs{})
+	c20goTypes["named-bytes"] = reflect.TypeOf(namedBytes{})
+	c20goTypes["named-int"] = reflect.TypeOf(namedInt(0))
+	c20goTypes["named-bool"] = reflect.TypeOf(namedBool(false))
 	for _, k := range allKinds {
 		for _, null := range []bool{false, true} {
 			c20goTypes[kindName(k, null)] = goType(k, null)
@@ -78,7 +90,8 @@ var c20supported = func() []string {
 	}
 	return out
 }()
-var c20unsupported = []string{"float64", "[]int", "map", "struct", "**string", "*[]string", "[]string", "interface", "*float64", "[]*string", "rune-array"}
+var c20unsupported = []string{"float64", "[]int", "map", "struct", "**string", "*[]string", "[]string", "interface", "*float64", "[]*string", "rune-array",
+	"named-string", "*named-string", "named-ids", "named-bytes", "named-int", "named-bool"}
 
 func sp(s string) *string { return &s }
 
@@ -115,7 +128,7 @@ func (m c20) genShape(r *RNG) c20shape {
 			}
 			f.Go = []string{"string", "[]string"}[r.Intn(2)]
 			if r.Chance(1, 10) {
-				f.Go = []string{"int", "*string", "[]int", "bytes", "*[]string"}[r.Intn(5)]
+				f.Go = []string{"int", "*string", "[]int", "bytes", "*[]string", "named-string", "named-ids", "*named-string"}[r.Intn(8)]
 			}
 		case 9:
 			f.API = nil
